@@ -75,6 +75,10 @@ func c10Anchored(p *Prog, r *Report) {
 		}
 		q.Req(R, "closes-protocol", onlyLoopGuards(pcl), pcl.Pos(p), "proto.Close() on every path", "socket.Close does not call proto.Close() on every path")
 		q.Req(R, "closes-all-pipes", onlyLoopGuards(ca), ca.Pos(p), "pipes.CloseAll() on every path", "socket.Close does not call pipes.CloseAll() on every path")
+		// the protocol refuses new pipes (AddPipe -> ErrClosed) only once it is closed: it must
+		// be closed BEFORE the sweep of the attached pipes, otherwise a connection that is
+		// attached between the sweep and proto.Close stays attached to a closed socket for good
+		q.Req(R, "protocol-closed-before-pipe-sweep", len(pcl) == 1 && len(ca) == 1 && evDominates(pcl[0], ca[0]), ca.Pos(p), "proto.Close() precedes pipes.CloseAll()", "socket.Close sweeps the pipes before the protocol is closed: a pipe attached in between is never closed (connection, goroutines and pipe id outlive the socket)")
 	}
 	for _, nm := range [][2]string{{"NewDialer", "recv.dialers"}, {"NewListener", "recv.listeners"}} {
 		f := q.Fn(R, "internal/core", "socket", nm[0])
